@@ -334,7 +334,7 @@ def c16_refs(state, cfg, case):
         fails.append({"what": f"render(D, env seeded by R) != render(R + blank + D): {seeded[:80]!r} vs {onego[:80]!r}", "key": "C16/seed"})
     # a document consisting only of well-formed definitions renders to nothing, and each recorded map starts at a
     # line that opens a definition and the maps tile the document
-    if r and all(l.startswith("[") or not l.startswith(("[", ">", "-")) for l in r.split("\n")) and r.count("]:") == len(re.findall(r"^\[", r, flags=re.M)) and "not a def" not in r:
+    if r and all(l.startswith("[") or not l.startswith(("[", ">", "-")) for l in r.split("\n")) and r.count("]:") == len(re.findall(r"^\[", r, flags=re.M)) and "not a def" not in r and "\\\n" not in r:
         if md.render(r).strip():
             fails.append({"what": f"definitions-only document {r!r} leaves output {md.render(r)[:60]!r}", "key": "C16/def-lines"})
         er: dict = {}
@@ -360,6 +360,11 @@ def c16_refs(state, cfg, case):
         refs = [(k, v["href"], v["title"]) for k, v in (e.get("references") or {}).items()]
         dups = [(x["label"], x["href"], x["title"]) for x in (e.get("duplicate_refs") or [])]
         return refs, sorted(dups)
+    # a definition is recorded with the map of its own lines: nothing it consumed lies outside them, so its destination
+    # cannot contain a line ending (the destination parser reports no lines)
+    for k, v in list((e2.get("references") or {}).items()) + [(x["label"], x) for x in (e2.get("duplicate_refs") or [])]:
+        if "%0A" in v["href"] or "\n" in v["href"]:
+            fails.append({"what": f"definition {k!r} has a destination spanning a line ending ({v['href']!r}) but map {v['map']}", "key": "C16/dest-line-ending"})
     if recs(e2) != recs(e3):
         fails.append({"what": "definitions recorded differently when env is seeded vs parsed in one go (first-wins / duplicates)", "key": "C16/records"})
     return {"sig": (len(e2.get("references") or {}), len(e2.get("duplicate_refs") or []), seeded[:30]), "fail": fails}
@@ -914,7 +919,7 @@ def gen_c07(tier):
 
 def gen_c16_refs(tier):
     defs = ["[a]: /u\n", "[a]: /v 't'\n", "[A]: /w\n", "[b]: <x y> (t)\n", "[a]: /u\n[a]: /z\n", "[ a  b ]: /ab\n", "[ß]: /ss\n", "[c]:\n/m\n'multi\nline'\n",
-            "[d]: /d \"hard\\\nbreak\"\n", "> [q]: /q\n", "- [l]: /l\n", "[e]: /e\nnot a def\n", "", "[ẞ]: /SS\n"]
+            "[d]: /d \"hard\\\nbreak\"\n", "> [q]: /q\n", "- [l]: /l\n", "[e]: /e\nnot a def\n", "", "[ẞ]: /SS\n", "[f]: <a\\\nb>\n", "[g]: a\\\nb\n"]
     uses = ["[a]\n", "[A] [b]\n", "![a]\n", "[x][a]\n", "[a]: /other\n\n[a]\n", "[a b]\n", "[SS] [ss]\n", "[c] [d]\n", "[q] [l]\n", "[e]\n", "plain\n", "[a]: /u\n\n[a]\n"]
     for r in defs:
         for d in uses:
